@@ -899,6 +899,34 @@ def rule_local_selector_retired(ctx):
                 elif ident[0] == "site":
                     r.check(guarded, "%s|solve#%d" % (b.id, k), "selector-guards-nothing", "the clause stating the query carries the negated selector", "a selector is created and assumed for this SAT call, but no clause added before the call carries its negation: the query clause is unguarded and stays in the solver for every later call", s.loc())
                 ret = [a for a, u, uid in units if uid == ident and b.reaches(s.bb, a.bb)]
+                if not ret and ident[0] == "site" and b.kind != "closure" and b.impl:
+                    # the selector is kept in a field of the object (`self.selector = Some(selector)`) and retired by a method of the
+                    # object that takes it from there (`self.retire_selector()`), called after the SAT call
+                    stored = set()
+                    for st in b.sites():
+                        nd = st.node
+                        if st.si is not None and nd["k"] == "assign" and nd["dst"]["l"] == 1 and place_fields(nd["dst"]):
+                            ops_ = nd["rv"].get("ops") or []
+                            for x in ops_:
+                                seen_, calls_, _ = data_deps(b, x)
+                                if any((c.bb, c.si) == (ident[2], ident[3]) for c in calls_) or any(dd.bb == ident[2] for l_ in seen_ for dd in b.defs.get(l_, [])):
+                                    stored.add(str(place_fields(nd["dst"])[0]))
+                    if stored:
+                        via = None
+                        for cs2 in b.calls():
+                            t2 = prog.body_for_callee(callee_of(cs2), b) if callee_of(cs2) else None
+                            if t2 is None or t2.kind == "closure" or not t2.impl or t2.impl.get("self_adt") != b.impl.get("self_adt") or not b.reaches(s.bb, cs2.bb):
+                                continue
+                            for a2 in t2.calls():
+                                if callee_matches(callee_of(a2), r"sat_solver::SatSolver::add_clause$"):
+                                    l2 = tags.literals_of(prog, t2, a2.node["args"][1], set())
+                                    if len(l2) == 1 and l2[0].pos is False and any(f in str(l2[0].note or "") for f in stored):
+                                        via = t2
+                        if via is not None:
+                            r.ok("%s|solve#%d" % (b.id, k), "the selector assumed for this call is kept in the field `%s` and retired by %s, called after the call" % (sorted(stored)[0], via.path.rsplit("::", 1)[-1]), s.loc())
+                            continue
+                        r.ok("%s|solve#%d" % (b.id, k), "NOT decided: the selector assumed for this call is kept in the field `%s`; where it is retired is not in this function" % sorted(stored)[0], s.loc())
+                        continue
                 r.check(bool(ret), "%s|solve#%d" % (b.id, k), "selector-not-retired", "the selector assumed for this call is retired after it", "the selector assumed for this SAT call is never retired: the query clause it guards can be switched on again by a later selector with the same number", s.loc())
     r.floor(n, 1, "SAT calls under a locally created selector")
 
